@@ -308,3 +308,31 @@ pub fn same_u8_map<const N: usize>(m: &Map<u8, u8, N>, md: &Model<N>) {
     vf::check(total == md.n && cnt == md.has(q) as usize, 811);
 }
 
+
+/// zero-sized key that is never equal to anything (PartialEq only): lets a container hold several zero-sized entries
+#[derive(Clone, Copy)]
+pub struct NE;
+impl PartialEq for NE { #[inline(always)] fn eq(&self, _: &NE) -> bool { false } }
+/// up to N zero-sized entries: n inserts of never-equal keys, then a retain with one solver-chosen decision per entry
+pub fn zst_map<const N: usize>() -> (Map<NE, (), N>, usize) {
+    let mut m: Map<NE, (), N> = empty_map();
+    let n0 = vf::any_usize();
+    vf::assume(n0 <= N);
+    let mut i = 0;
+    while i < N { if i < n0 { vf::check(m.insert(NE, ()).is_none(), 100); } i += 1; }
+    let mut n = 0usize;
+    m.retain(|_, _| { let keep = vf::any_bool(); if keep { n += 1; } keep });
+    vf::check(m.len() == n, 201);
+    (m, n)
+}
+pub fn zst_set<const N: usize>() -> (Set<NE, N>, usize) {
+    let mut s: Set<NE, N> = empty_set();
+    let n0 = vf::any_usize();
+    vf::assume(n0 <= N);
+    let mut i = 0;
+    while i < N { if i < n0 { vf::check(s.insert(NE), 100); } i += 1; }
+    let mut n = 0usize;
+    s.retain(|_| { let keep = vf::any_bool(); if keep { n += 1; } keep });
+    vf::check(s.len() == n, 201);
+    (s, n)
+}
